@@ -71,7 +71,12 @@ def _open_of(func, call, fh):
 def run(db: ProgramDB, chk) -> None:
     from ..specs.discipline import check_pickle_hooks
     check_pickle_hooks(db, chk, "C19.R4-default-pickling", "hta.analyzers.critical_path_analysis", ["CPNode", "CPEdge", "_CPGraphData"])
-    chk.floor("C19.R4-default-pickling", 9)
+    chk.floor("C19.R4-default-pickling", 11)
+    for q_ in ("restore_cpgraph", "CPGraph.save"):
+        f_ = db.mod(MOD).func(q_)
+        memo = [ast.unparse(d_) for d_ in f_.decorator_list if any(k in ast.unparse(d_) for k in ("cache", "memo"))]
+        chk.ob("C19.R4-default-pickling", f"{q_} is not memoised (every restore builds a fresh graph from the archive's current content)", not memo, db.mod(MOD).loc(f_), found=memo or "no memoising decorator",
+               accepted="no lru_cache / cache", why="a cached restore hands out the SAME mutable graph again (re-weighted by an earlier what-if) and ignores an archive that was saved anew under the same name")
     from .c09 import check_reset_before_accumulate
     check_reset_before_accumulate(db, chk, "C19.R5-recomputation-on-a-restored-graph")    # restore -> critical_path() again must rebuild, not extend, the restored edge set
     m = db.mod(MOD)
